@@ -240,6 +240,18 @@ class Inliner:
                 for m in n.body:
                     if isinstance(m, ast.FunctionDef) and _Helper.eligible(m, n.name):
                         self.helpers[(n.name, m.name)] = _Helper(m, n.name)
+        # private generator methods that a public generator delegates to with `yield from`: their body is put in place of the delegation
+        self.delegates: dict[tuple[str | None, str], _Helper] = {}
+        for n in tree.body:
+            if isinstance(n, ast.ClassDef):
+                for m in n.body:
+                    if isinstance(m, ast.FunctionDef) and _is_private(m.name, n.name) and (n.name, m.name) not in self.helpers \
+                            and any(isinstance(x, ast.Yield) for x in ast.walk(m)) and not m.decorator_list and not m.args.vararg and not m.args.kwarg \
+                            and not any(isinstance(x, ast.Return) and x.value is not None for x in ast.walk(m)) \
+                            and not any(isinstance(x, (ast.YieldFrom, ast.Await, ast.Global, ast.Nonlocal, ast.Lambda)) or (x is not m and isinstance(x, (ast.FunctionDef, ast.ClassDef)))
+                                        for x in ast.walk(m)) \
+                            and sum(1 for x in ast.walk(m) if isinstance(x, ast.stmt)) <= MAX_STATEMENTS:
+                        self.delegates[(n.name, m.name)] = _Helper(m, n.name)
         # private helpers a class of this module inherits from a base class defined in another module
         for (cls, name), fn in (extra or {}).items():
             if (cls, name) not in self.helpers:
@@ -360,6 +372,27 @@ class Inliner:
     def inline_stmt(self, s: ast.stmt, cls: str | None, host_names: set[str]) -> list[ast.stmt] | None:
         """The statements that replace `s` when its value is a call of a statement helper, else None."""
         call, mode = None, None
+        # `yield from self._gen(args)` as a statement: the delegate's body (its yields, its try / finally) in place of the delegation
+        if isinstance(s, ast.Expr) and isinstance(s.value, ast.YieldFrom) and isinstance(s.value.value, ast.Call):
+            c_ = s.value.value
+            f_ = c_.func
+            if isinstance(f_, ast.Attribute) and isinstance(f_.value, ast.Name) and f_.value.id == "self" and cls is not None and (cls, f_.attr) in self.delegates:
+                h = self.delegates[(cls, f_.attr)]
+                try:
+                    prefix, rename, subst = self.bind(h, c_, f_.value, host_names)
+                except NotInlinable:
+                    return None
+                body = [_Rename(rename, subst).visit(copy.deepcopy(x)) for x in h.body]
+                for b_ in body:
+                    for x in ast.walk(b_):
+                        if isinstance(x, (ast.stmt, ast.expr)) and not isinstance(x, ast.expr_context):
+                            pass
+                self.count += 1
+                out = prefix + body
+                host_names |= {n.id for x in out for n in ast.walk(x) if isinstance(n, ast.Name)}
+                h.fn._delegated = True
+                return out
+            return None
         # `for x in gen(..): BODY` over a simple generator helper: the generator's loop with `x = <yielded>; BODY` where it yields
         if isinstance(s, ast.For) and not s.orelse and isinstance(s.iter, ast.Call):
             rg = self.resolve(s.iter, cls)
@@ -602,7 +635,7 @@ class Inliner:
                         do_fn(m, n.name)
         # a helper with no call left in its module lives on in its hosts only: marked, so that the index does not present it as an
         # entry point of its own (`_rebuild_abs` taken alone reads the stale view -- its callers established that it is not)
-        for (cls, nm), h in self.helpers.items():
+        for (cls, nm), h in list(self.helpers.items()) + list(self.delegates.items()):
             own = {id(x) for x in ast.walk(h.fn)}
             left = any((isinstance(x, ast.Attribute) and x.attr == nm) or (isinstance(x, ast.Name) and x.id == nm)
                        for x in ast.walk(self.tree) if id(x) not in own)
